@@ -55,7 +55,8 @@ def run_one(prop, sha, what, tier):
 
 
 def main():
-    args = [a for a in sys.argv[1:] if not a.startswith('-') and not a.isdigit()]
+    argv = sys.argv[1:]
+    args = [a for i, a in enumerate(argv) if not a.startswith('-') and not (i and argv[i - 1] == '-j')]
     tier = 'thorough' if '--thorough' in sys.argv else 'quick'
     jobs = int(sys.argv[sys.argv.index('-j') + 1]) if '-j' in sys.argv else 4
     todo = [f for f in fixed_lines() if not args or f[0] in args or any(f[1].startswith(a) for a in args)]
